@@ -565,7 +565,7 @@ def run(ctx):
                                                                   kex_ctx="ok"), first=[("gss_keyex",)]))
             plan.append(dict(kind="gss-mic-focus", focus=dict(check_auth_gssapi_with_mic=ans, enable_auth_gssapi=True),
                              first=[("gss_mic_start",), ("gss_token",), ("gss_mic",)]))
-    n_random = ctx.pick(160, 2400)
+    n_random = ctx.pick(100, 2400)
     for i in range(n_random):
         plan.append(dict(kind="random"))
     deadline = ctx.deadline(150, 1200)
